@@ -33,11 +33,12 @@ pub struct GenCfg {
   /// steer the universe towards shapes a fault kind needs
   pub force_interface: bool,
   pub force_multi_module: bool,
+  pub force_hof: bool,
 }
 
 impl Default for GenCfg {
   fn default() -> Self {
-    GenCfg { max_classes: 5, max_depth: 4, node_budget: 220, string_escapes: false, non_ascii_strings: false, wide_vec_ints: false, unboxable_recursive_enum: true, param_swap_tail_calls: true, big_ints: true, single_variant_pointer_enum: true, rec_call_in_short_circuit: true, tuple_typed_field: true, lambda_this_in_generic_class: true, lambda_this_in_enum_class: true, fn_typed_field_in_generic_class: true, fuel_in_base_case: true, effects_in_rec_call_args: true, derived_induction_args: true, neg_division: true, single_field_struct_payload: true, possibly_zero_divisor: true, force_interface: false, force_multi_module: false }
+    GenCfg { max_classes: 5, max_depth: 4, node_budget: 220, string_escapes: false, non_ascii_strings: false, wide_vec_ints: false, unboxable_recursive_enum: true, param_swap_tail_calls: true, big_ints: true, single_variant_pointer_enum: true, rec_call_in_short_circuit: true, tuple_typed_field: true, lambda_this_in_generic_class: true, lambda_this_in_enum_class: true, fn_typed_field_in_generic_class: true, fuel_in_base_case: true, effects_in_rec_call_args: true, derived_induction_args: true, neg_division: true, single_field_struct_payload: true, possibly_zero_divisor: true, force_interface: false, force_multi_module: false, force_hof: false }
   }
 }
 
@@ -81,6 +82,8 @@ pub struct Gen<'t> {
   budget: i32,
   has_cmp: bool,
   cmp_module: Vec<String>,
+  /// module of the higher-order helper class `Hof` (implicit type arguments + hinted lambdas)
+  hof_module: Option<Vec<String>>,
   pub features: Vec<&'static str>,
 }
 
@@ -109,7 +112,7 @@ const STRS: &[&str] = &["", "a", "hello", "x y", "samlang", "0", "-7", "end."];
 impl<'t> Gen<'t> {
   pub fn new(t: &'t mut Tape, cfg: GenCfg) -> Gen<'t> {
     let budget = cfg.node_budget;
-    Gen { t, cfg, classes: vec![], funs: vec![], counter: 0, budget, has_cmp: false, cmp_module: vec![], features: vec![] }
+    Gen { t, cfg, classes: vec![], funs: vec![], counter: 0, budget, has_cmp: false, cmp_module: vec![], hof_module: None, features: vec![] }
   }
 
   fn feat(&mut self, f: &'static str) {
@@ -194,6 +197,44 @@ impl<'t> Gen<'t> {
         typedef: TypeDef::None,
         implements: vec![],
         members: vec![Member { name: "cmp".into(), is_method: true, is_public: true, tparams: vec![], params: vec![("other".into(), Ty::TParam("T".into()))], ret: Ty::Int, body: None }],
+      });
+    }
+    if self.t.bool(1, 2) || self.cfg.force_hof {
+      self.hof_module = Some(paths[0].clone());
+      self.feat("inference:implicit-targs+hinted-lambda");
+      let tp = |n: &str| TParamDef { name: n.into(), bound: None };
+      let t_ = |n: &str| Ty::TParam(n.into());
+      let var = |n: &str, t: Ty| Expr::new(t, EK::Var(n.into()));
+      let call = |f: Expr, args: Vec<Expr>, r: Ty| Expr::new(r, EK::CallValue { callee: Box::new(f), args });
+      let ft = Ty::Fn(vec![t_("T")], Box::new(t_("T")));
+      let f2 = Ty::Fn(vec![t_("A"), t_("B")], Box::new(t_("A")));
+      modules[0].classes.push(Class {
+        name: "Hof".into(),
+        is_interface: false,
+        private: false,
+        tparams: vec![],
+        typedef: TypeDef::None,
+        implements: vec![],
+        members: vec![
+          Member {
+            name: "applyTwice".into(),
+            is_method: false,
+            is_public: true,
+            tparams: vec![tp("T")],
+            params: vec![("f".into(), ft.clone()), ("x".into(), t_("T"))],
+            ret: t_("T"),
+            body: Some(call(var("f", ft.clone()), vec![call(var("f", ft.clone()), vec![var("x", t_("T"))], t_("T"))], t_("T"))),
+          },
+          Member {
+            name: "foldPair".into(),
+            is_method: false,
+            is_public: true,
+            tparams: vec![tp("A"), tp("B")],
+            params: vec![("f".into(), f2.clone()), ("init".into(), t_("A")), ("b".into(), t_("B"))],
+            ret: t_("A"),
+            body: Some(call(var("f", f2.clone()), vec![var("init", t_("A")), var("b", t_("B"))], t_("A"))),
+          },
+        ],
       });
     }
     for i in 0..nclasses {
@@ -982,7 +1023,8 @@ impl<'t> Gen<'t> {
     }
     let d = depth - 1;
     // productions available for every type
-    let generic = if cx.no_effects { self.t.weighted(&[14, 3, 3, 0, 0, 2, 0]) } else { self.t.weighted(&[14, 3, 3, 3, 2, 2, 2]) };
+    let hof_w = if self.hof_module.is_some() && !contains_tparam(ty) && !matches!(ty, Ty::Fn(..) | Ty::Unit) { 2 } else { 0 };
+    let generic = if cx.no_effects { self.t.weighted(&[14, 3, 3, 0, 0, 2, 0, 0]) } else { self.t.weighted(&[14, 3, 3, 3, 2, 2, 2, hof_w]) };
     match generic {
       1 => {
         let cond = self.expr(&Ty::Bool, cx, d);
@@ -1013,6 +1055,49 @@ impl<'t> Gen<'t> {
         if let Some(e) = self.if_let(ty, cx, d) {
           return e;
         }
+      }
+      7 => {
+        // generic higher-order call: type arguments are solved from the non-lambda argument(s), the lambda
+        // parameters are un-annotated and typed from the hint (spec 5.7)
+        let hm = self.hof_module.clone().unwrap();
+        let was = cx.in_lambda;
+        let saved = cx.rec.take();
+        let e = if self.t.bool(1, 2) {
+          let v = self.fresh("h");
+          cx.env.push((v.clone(), ty.clone()));
+          cx.in_lambda = true;
+          let hidden_this = self.hide_this(cx);
+          let body = self.expr(ty, cx, d);
+          cx.in_lambda = was;
+          if hidden_this.is_some() {
+            cx.this = hidden_this;
+          }
+          cx.env.pop();
+          let x = self.expr(ty, cx, d);
+          let lam = Expr::new(Ty::Fn(vec![ty.clone()], Box::new(ty.clone())), EK::Lambda { params: vec![(v, ty.clone())], annotated: false, body: Box::new(body) });
+          Expr::new(ty.clone(), EK::StaticCall { module: hm, class: "Hof".into(), member: "applyTwice".into(), targs: vec![], args: vec![lam, x] })
+        } else {
+          let bt = self.prim();
+          let (a, b) = (self.fresh("h"), self.fresh("h"));
+          cx.env.push((a.clone(), ty.clone()));
+          cx.env.push((b.clone(), bt.clone()));
+          cx.in_lambda = true;
+          let hidden_this = self.hide_this(cx);
+          let body = self.expr(ty, cx, d);
+          cx.in_lambda = was;
+          if hidden_this.is_some() {
+            cx.this = hidden_this;
+          }
+          cx.env.pop();
+          cx.env.pop();
+          let init = self.expr(ty, cx, d);
+          let bv = self.expr(&bt, cx, d);
+          let lam = Expr::new(Ty::Fn(vec![ty.clone(), bt.clone()], Box::new(ty.clone())), EK::Lambda { params: vec![(a, ty.clone()), (b, bt)], annotated: false, body: Box::new(body) });
+          Expr::new(ty.clone(), EK::StaticCall { module: hm, class: "Hof".into(), member: "foldPair".into(), targs: vec![], args: vec![lam, init, bv] })
+        };
+        cx.rec = saved;
+        self.feat("hinted-lambda-call");
+        return e;
       }
       6 => {
         // immediately applied lambda capturing the environment
